@@ -1,4 +1,4 @@
-import VermouthModel.C01_Mod
+import VermouthModel.C01_Attr
 open Proto C01
 
 def pairOf (t : Tok) : Option (Int × Int) := do
@@ -50,10 +50,21 @@ def mapSpecOf (t : Tok) : Option MapSpec := do
            weights := ← weightsOf weights, refs := ← pairsOfTok refs }
   | _ => none
 
+def optTok {α : Type} (t : Tok) (f : Tok → Option (Option α)) : Option (Option (Option α)) := do
+  match ← t.list? with
+  | [] => pure none
+  | [v] => pure (some (← f v))
+  | _ => none
+
 def modNodeOf (t : Tok) : Option ModNode := do
   match ← t.list? with
   | [k, n, r, c, isNew] => pure { key := ← k.int?, attrs := { name := ← n.optStr?, resid := ← r.optInt?, cg := ← c.optInt? },
                                    isNew := (← isNew.int?) != 0 }
+  | [k, n, r, c, isNew, rn, rr, rc] =>
+    -- with the `replace` dictionary: each of atomname / resid / charge_group as `[ ]` (absent) or `[ v ]`
+    pure { key := ← k.int?, attrs := { name := ← n.optStr?, resid := ← r.optInt?, cg := ← c.optInt? },
+           isNew := (← isNew.int?) != 0,
+           repl := { name := ← optTok rn Tok.optStr?, resid := ← optTok rr Tok.optInt?, cg := ← optTok rc Tok.optInt? } }
   | _ => none
 
 def modSpecOf (t : Tok) : Option ModSpec := do
@@ -119,6 +130,103 @@ def mnodeOf (t : Tok) : Option MNode := do
     pure { key := ← k.int?, attrs := as, resid := ← r.optInt? }
   | _ => none
 
+/-! ### the extended run (`mapx`) -/
+
+def valOf : Tok → Option Val
+  | Tok.none => some Val.none
+  | Tok.int i => some (Val.int i)
+  | Tok.str s => some (Val.str s)
+  | _ => none
+
+def attrDOf (t : Tok) : Option AttrD := do
+  (← t.list?).mapM (fun kv => do
+    match ← kv.list? with
+    | [k, v] => pure (← k.str?, ← valOf v)
+    | _ => none)
+
+def optAttrDOf : Tok → Option (Option AttrD)
+  | Tok.none => some none
+  | t => (attrDOf t).map some
+
+def atomXOf (t : Tok) : Option AtomX := do
+  match ← t.list? with
+  | [k, attrs, repl, h] => pure { key := ← k.int?, attrs := ← attrDOf attrs, replace := ← optAttrDOf repl, isH := (← h.int?) != 0 }
+  | _ => none
+
+def fmtMapOf (t : Tok) : Option (List (String × Int)) := do
+  (← t.list?).mapM (fun kv => do
+    match ← kv.list? with
+    | [k, v] => pure (← k.str?, ← v.int?)
+    | _ => none)
+
+def blockLogOf (t : Tok) : Option (String × String × List (List (String × Int))) := do
+  match ← t.list? with
+  | [lvl, e, maps] => pure (← lvl.str?, ← e.str?, ← (← maps.list?).mapM fmtMapOf)
+  | _ => none
+
+def mapSpecXOf (t : Tok) : Option MapSpecX := do
+  match ← t.list? with
+  | [nodes, edges, inters, nrexcl, ffOk, logs, cites, weights, refs] =>
+    let ns3 ← (← nodes.list?).mapM (fun n => do
+      match ← n.list? with
+      | [k, d, nm] => pure (← k.int?, ← attrDOf d, ← nm.str?)
+      | _ => none)
+    let ns := ns3.map (fun x => (x.1, x.2.1))
+    pure { blockTo := { nodes := ns, keyNames := ns3.map (fun x => x.2.2), edges := ← pairsOfTok edges, inters := ← (← inters.list?).mapM interOf,
+                        nrexcl := ← nrexcl.optInt?, ffOk := (← ffOk.int?) != 0,
+                        logs := ← (← logs.list?).mapM blockLogOf, cites := ← strs? cites },
+           weights := ← weightsOf weights, refs := ← pairsOfTok refs }
+  | _ => none
+
+def modNodeXOf (t : Tok) : Option ModNodeX := do
+  match ← t.list? with
+  | [k, d, isNew, repl] => pure { key := ← k.int?, attrs := ← attrDOf d, isNew := (← isNew.int?) != 0, replace := ← attrDOf repl }
+  | _ => none
+
+def strPairOf (t : Tok) : Option (String × String) := do
+  match ← t.list? with
+  | [a, b] => pure (← a.str?, ← b.str?)
+  | _ => none
+
+def modSpecXOf (t : Tok) : Option ModSpecX := do
+  match ← t.list? with
+  | [nodes, edges, inters, weights, refs, logs, cites] =>
+    pure { nodes := ← (← nodes.list?).mapM modNodeXOf, edges := ← pairsOfTok edges,
+           inters := ← (← inters.list?).mapM interOf, weights := ← weightsOf weights, refs := ← pairsOfTok refs,
+           logs := ← (← logs.list?).mapM strPairOf, cites := ← strs? cites }
+  | _ => none
+
+def encVal : Val → String
+  | .none => "-"
+  | .int i => encInt i
+  | .str s => encStr s
+
+def encAttrD (d : AttrD) : String :=
+  encList ((sortBy (fun (a b : String × Val) => a.1 < b.1) d).map (fun kv => encList [encStr kv.1, encVal kv.2]))
+
+def encParticle (p : ParticleX) : String :=
+  encList [encInt p.key, encAttrD p.attrs,
+           encList ((sortBy (fun a b => a < b) p.atoms).map encInt),
+           encList ((sortBy (fun (a b : Int × Rat) => a.1 < b.1) p.weights).map (fun w => encList [encInt w.1, encStr (encRat w.2)])),
+           encList (p.mods.map encNat)]
+
+def strPairLt (a b : String × String) : Bool := a.1 < b.1 || (a.1 == b.1 && a.2 < b.2)
+
+def encFmtMap (fm : List (String × Int)) : String :=
+  encList ((sortBy (fun (a b : String × Int) => a.1 < b.1) fm).map (fun kv => encList [encStr kv.1, encInt kv.2]))
+
+def encResultX (r : ResultX) : String :=
+  "ok " ++ encList (r.particles.map encParticle) ++ " "
+    ++ encList ((sortBy lexLt (r.edges.map normEdge)).map (fun e => encList (e.map encInt))) ++ " "
+    ++ encList ((sortBy (fun (a b : String × C12.Inter) => a.1 < b.1) r.inters).map (fun ti => encList [encStr ti.1, encList (ti.2.atoms.map encInt), encStr ti.2.params])) ++ " "
+    ++ encList [encBool r.warn.overlap,
+                encList (r.garbage.map (fun kw => encList (kw.2.map encStr))),
+                encNat r.warn.disconnected, encBool r.warn.unmapped, encBool r.warn.hydrogens, encNat r.multiMod] ++ " "
+    ++ encList ((sortBy (fun a b => a < b) r.removed).map encInt) ++ " "
+    ++ encList ((sortBy (fun (a b : (String × String) × List (List (String × Int))) => strPairLt a.1 b.1) r.logs).map
+          (fun e => encList [encStr e.1.1, encStr e.1.2, encList (e.2.map encFmtMap)])) ++ " "
+    ++ encList ((sortBy (fun (a b : String) => a < b) r.cites).map encStr)
+
 def handle (_ : Unit) (toks : List Tok) : Unit × String :=
   let r : Option String :=
     match toks with
@@ -139,6 +247,19 @@ def handle (_ : Unit) (toks : List Tok) : Unit × String :=
         let rm ← (← rawMods.list?).mapM rawOfTok
         match doMappingAll { atoms := as, edges := es } ms rw md rm with
         | .ok res => pure (encResult res)
+        | .error e => pure ("error " ++ e.str)
+    | [Tok.str "mapx", cfg, atoms, edges, cites, maps, raw, mods, rawMods] => do
+        let c ← match ← cfg.list? with
+          | [k, mu, st] => some ({ keep := ← strs? k, must := ← strs? mu, stash := ← strs? st } : Cfg)
+          | _ => none
+        let as ← (← atoms.list?).mapM atomXOf
+        let es ← pairsOfTok edges
+        let ms ← (← maps.list?).mapM mapSpecXOf
+        let rw ← (← raw.list?).mapM rawOfTok
+        let md ← (← mods.list?).mapM modSpecXOf
+        let rm ← (← rawMods.list?).mapM rawOfTok
+        match doMappingX c { atoms := as, edges := es, cites := ← strs? cites } ms rw md rm with
+        | .ok res => pure (encResultX res)
         | .error e => pure ("error " ++ e.str)
     | [Tok.str "modselect", known, groups] => do
         let kn ← (← known.list?).mapM strs?
